@@ -6,12 +6,15 @@ import nauyaca.server.protocol as sp
 from nauyaca.protocol.response import GeminiResponse
 from nauyaca.server.protocol import GeminiServerProtocol
 
-from vf import FixedClock, NoLog
+import asyncio as _asyncio
+import time as _time
+
+from vf import FixedClock, NoLog, bind
 from vf.stubs import FakeAsyncio, FakeTransport, MiniLoop
 from vf.symbuf import SymBuf, _is_fill
 
 sp.logger = NoLog()
-sp.time = FixedClock()
+bind(sp, _time, FixedClock(), required=False)
 
 
 class SymValueError(ValueError):
@@ -36,7 +39,7 @@ _rq.ValueError = SymValueError
 
 def make(handler, middleware=None, upload=None, peer=("192.0.2.7", 50000), ssl_object=None):
     loop = MiniLoop()
-    sp.asyncio = FakeAsyncio(loop)
+    bind(sp, _asyncio, FakeAsyncio(loop))
     p = GeminiServerProtocol(handler, middleware, upload)
     t = FakeTransport(peer=peer, ssl_object=ssl_object)
     p.connection_made(t)
